@@ -10,6 +10,7 @@ from hxv import boot
 boot.boot()
 
 from hxv.core import rows_to_candles  # noqa: E402
+from hexital import Candle  # noqa: E402
 from hexital.core.candle_manager import CandleManager  # noqa: E402
 from hexital.indicators import HighLowAverage  # noqa: E402
 
@@ -31,14 +32,15 @@ def main():
         try:
             signal.setitimer(signal.ITIMER_REAL, 2)
             rows, tf, cut, fill = job["rows"], job["tf"], job["cut"], job.get("fill", False)
+            mk = (lambda rs: [Candle(r[1], r[2], r[3], r[4], r[5], timestamp=r[0]) for r in rs]) if job.get("ts_as_str") else rows_to_candles
             if job.get("entry") == "indicator":
-                ind = HighLowAverage(candles=rows_to_candles(rows[:cut]), timeframe=tf, timeframe_fill=fill)
-                for r in rows_to_candles(rows[cut:]):
+                ind = HighLowAverage(candles=mk(rows[:cut]), timeframe=tf, timeframe_fill=fill)
+                for r in mk(rows[cut:]):
                     ind.append(r)
                 cs = ind.candles
             else:
-                m = CandleManager(rows_to_candles(rows[:cut]), timeframe=tf, timeframe_fill=fill)
-                rest = rows_to_candles(rows[cut:])
+                m = CandleManager(mk(rows[:cut]), timeframe=tf, timeframe_fill=fill)
+                rest = mk(rows[cut:])
                 if rest:
                     m.append(rest)
                 cs = m.candles
